@@ -21,6 +21,7 @@
 //! Observation: len=<n> fnv=<hash of the file bytes> [ft=<tok>:<f32 bits>,..] obs=<o>;<o>..|<o>;..|=
 //!   one `|`-separated group per chunking (`=`: identical to the first group); outcome
 //!   o = R:<idhex>:<deschex or ->:<rows>:<cells row-major, K per row> | E:io|nom|inv | END | PANIC | CAP | HANG
+//!       | X:accessors-differ (matrix(), AsRef::as_ref and into_matrix() / From<Record> disagree: never expected)
 //!   (HANG: the case did not finish within the watchdog limit LM_IO_WATCHDOG_S, default 180 s)
 //!   next() is called until the first outcome that is not a record (END or an error; CAP after
 //!   len + 2 calls without one), then `post` more times whatever the calls return (a PANIC ends the list).  ft: Rust's str::parse::<f32> of every float token that
@@ -391,7 +392,14 @@ fn run_reader<B: BufRead>(fmt: &str, abc: &str, n_bytes: usize, post: usize, mk:
                 rd.next().map(|r| {
                     r.map(|rec| {
                         let (rows, cells) = cells_u32(rec.matrix());
-                        show_rec(rec.id(), rec.description(), rows, cells)
+                        let shown = show_rec(rec.id(), rec.description(), rows, cells.clone());
+                        // the other accessors of the record give the same matrix
+                        let by_ref = cells_u32(AsRef::<lightmotif::pwm::CountMatrix<A>>::as_ref(&rec));
+                        let owned = cells_u32(&rec.into_matrix());
+                        if by_ref.1 != cells || owned.1 != cells || by_ref.0 != rows || owned.0 != rows {
+                            return "X:accessors-differ".to_string();
+                        }
+                        shown
                     })
                     .map_err(|e| ekind(&e).to_string())
                 })
@@ -405,7 +413,13 @@ fn run_reader<B: BufRead>(fmt: &str, abc: &str, n_bytes: usize, post: usize, mk:
                 rd.next().map(|r| {
                     r.map(|rec| {
                         let (rows, cells) = cells_f32(rec.matrix());
-                        show_rec(rec.id(), None, rows, cells)
+                        let shown = show_rec(rec.id(), None, rows, cells.clone());
+                        let by_ref = cells_f32(AsRef::<lightmotif::pwm::FrequencyMatrix<A>>::as_ref(&rec));
+                        let owned = cells_f32(&rec.into_matrix());
+                        if by_ref.1 != cells || owned.1 != cells || by_ref.0 != rows || owned.0 != rows {
+                            return "X:accessors-differ".to_string();
+                        }
+                        shown
                     })
                     .map_err(|e| ekind(&e).to_string())
                 })
@@ -419,7 +433,13 @@ fn run_reader<B: BufRead>(fmt: &str, abc: &str, n_bytes: usize, post: usize, mk:
                 rd.next().map(|r| {
                     r.map(|rec| {
                         let (rows, cells) = cells_u32(rec.matrix());
-                        show_rec(rec.id(), rec.description(), rows, cells)
+                        let shown = show_rec(rec.id(), rec.description(), rows, cells.clone());
+                        let by_ref = cells_u32(AsRef::<lightmotif::pwm::CountMatrix<Dna>>::as_ref(&rec));
+                        let owned = cells_u32(&lightmotif::pwm::CountMatrix::<Dna>::from(rec));
+                        if by_ref.1 != cells || owned.1 != cells || by_ref.0 != rows || owned.0 != rows {
+                            return "X:accessors-differ".to_string();
+                        }
+                        shown
                     })
                     .map_err(|e| ekind(&e).to_string())
                 })
@@ -601,7 +621,7 @@ const ID_CHARS: &[u8] = b"ABCDEFGHIJKLMNOPQRSTUVWXYZabcdefghijklmnopqrstuvwxyz01
 const NON_ASCII: &[&str] = &["\u{e9}", "\u{3b1}", "\u{a0}", "\u{2003}", "\u{4e2d}", "\u{1F9EC}", "\u{85}", "\u{7ff}", "\u{800}", "\u{ffff}", "\u{10000}", "\u{10ffff}", "\u{d7ff}", "\u{e000}"];
 
 fn gen_id(rng: &mut Rng, uniprobe: bool) -> Vec<u8> {
-    let n = rng.range(1, 12) as usize;
+    let n = if rng.chance(1, 60) { rng.range(100, 600) as usize } else { rng.range(1, 12) as usize };
     let mut v = vec![];
     for k in 0..n {
         if rng.chance(1, 25) && !uniprobe {
@@ -628,7 +648,8 @@ fn gen_desc(rng: &mut Rng) -> Option<Vec<u8>> {
     if rng.chance(1, 3) {
         return None;
     }
-    let n = rng.range(1, 20) as usize;
+    // now and then a description longer than any small fixed buffer
+    let n = if rng.chance(1, 40) { rng.range(200, 1500) as usize } else { rng.range(1, 20) as usize };
     let mut v: Vec<u8> = vec![];
     for k in 0..n {
         let edge = k == 0 || k == n - 1;
@@ -783,7 +804,10 @@ fn gen_c14(seed: u64, n: usize, tier: &str) {
                 }
             }
         } as usize;
-        let maxw = if nrec > 60 { 12 } else { 40 };
+        // now and then a file of a few very wide matrices (hundreds of columns: lines of several kilobytes)
+        let wide = rng.chance(1, 25);
+        let nrec = if wide { nrec.min(3) } else { nrec };
+        let maxw = if wide { 400 } else if nrec > 60 { 12 } else { 40 };
         let recs: Vec<(Style, Src)> = (0..nrec).map(|_| gen_record(&mut rng, fmt, abc, maxw)).collect();
         // bytes before the first record (JASPAR formats), white space after the last
         let pre: Vec<u8> = if fmt != "uniprobe" && rng.chance(1, 5) {
@@ -1164,7 +1188,50 @@ fn selftest() -> i32 {
             }
         }
     }
-    // from_utf8 accepts exactly the well-formed sequences: all 1-3 byte strings, sampled 4 byte strings
+    // std's read_until / read_line over a failing BufRead, as stated by IoErr.read_until_e / read_line_e:
+    {
+        use std::io::ErrorKind as K;
+        let mut fact = |name: &str, ok: bool| {
+            if !ok {
+                println!("std BufRead fact does not hold: {}", name);
+                bad += 1;
+            }
+        };
+        // an error comes after the bytes seen so far were appended and consumed
+        let mut r = EvReader::new(b"ab>cd", vec![Ev::Data(2), Ev::Err(K::Other)]);
+        let mut buf = vec![b'#'];
+        let e = r.read_until(b'>', &mut buf);
+        fact("read_until: Err after appending what it consumed", e.is_err() && buf == b"#ab");
+        let e2 = r.read_until(b'>', &mut buf);
+        fact("read_until: the next call goes on after the consumed bytes", matches!(e2, Ok(1)) && buf == b"#ab>");
+        // Interrupted is retried
+        let mut r = EvReader::new(b"ab>cd", vec![Ev::Err(K::Interrupted), Ev::Data(1), Ev::Err(K::Interrupted), Ev::Data(1)]);
+        let mut buf = vec![];
+        fact("read_until: Interrupted is retried", matches!(r.read_until(b'>', &mut buf), Ok(3)) && buf == b"ab>");
+        // read_line keeps valid UTF-8 read before an error
+        let mut r = EvReader::new(b"ab\ncd", vec![Ev::Data(1), Ev::Err(K::Other)]);
+        let mut st = String::from("#");
+        let e = r.read_line(&mut st);
+        fact("read_line: Err keeps the valid UTF-8 it appended", e.is_err() && st == "#a");
+        fact("read_line: the next call completes the line", matches!(r.read_line(&mut st), Ok(2)) && st == "#ab\n");
+        // invalid UTF-8: the bytes of the line are consumed, the String is unchanged, InvalidData
+        let mut r = EvReader::new(b"a\xffb\ncd\n", vec![]);
+        let mut st = String::from("#");
+        let e = r.read_line(&mut st);
+        fact("read_line: invalid UTF-8 gives InvalidData and leaves the String unchanged",
+             matches!(&e, Err(x) if x.kind() == K::InvalidData) && st == "#");
+        fact("read_line: the invalid line was consumed", matches!(r.read_line(&mut st), Ok(3)) && st == "#cd\n");
+        // invalid UTF-8 followed by an I/O error inside the same call: still an error, String unchanged
+        let mut r = EvReader::new(b"a\xffb\ncd\n", vec![Ev::Data(2), Ev::Err(K::Other)]);
+        let mut st = String::from("#");
+        fact("read_line: invalid bytes then I/O error: Err, String unchanged", r.read_line(&mut st).is_err() && st == "#");
+        fact("read_line: ... and those bytes are gone", matches!(r.read_line(&mut st), Ok(2)) && st == "#b\n");
+        // end of input: Ok(0) again and again
+        let mut r = EvReader::new(b"", vec![]);
+        let mut st = String::new();
+        fact("read_line: Ok(0) at end of input, repeatedly",
+             matches!(r.read_line(&mut st), Ok(0)) && matches!(r.read_line(&mut st), Ok(0)) && st.is_empty());
+    }
     println!("selftest: {} mismatches", bad);
     if bad == 0 {
         0
